@@ -77,6 +77,23 @@ theorem evalExpr_and (strip : String → String) (ext : Ext) (f : Nat) (env : En
        | .raise c => .raise c
        | .stuck w => .stuck w) := rfl
 
+theorem evalStmt_setattr (strip : String → String) (ext : Ext) (f : Nat) (env : Env) (o fld : String) (e : Expr) :
+    evalStmt strip ext (f + 1) env (.setattr o fld e) =
+      (match evalExpr strip ext f env e with
+       | .ok v => (match lookup env o with
+         | some (.obj fs) => .normal (setVar env o (.obj (setField fs fld v)))
+         | some _ => .stuck "attribute assignment on a non-object"
+         | none => .raise "NameError" env)
+       | .raise c => .raise c env
+       | .stuck w => .stuck w) := rfl
+
+theorem evalStmt_expr (strip : String → String) (ext : Ext) (f : Nat) (env : Env) (e : Expr) :
+    evalStmt strip ext (f + 1) env (.expr e) =
+      (match evalExpr strip ext f env e with
+       | .ok _ => .normal env
+       | .raise c => .raise c env
+       | .stuck w => .stuck w) := rfl
+
 theorem evalStmt_try (strip : String → String) (ext : Ext) (f : Nat) (env : Env) (body : List Stmt)
     (handlers : List (String × List Stmt)) :
     evalStmt strip ext (f + 1) env (.try body handlers) =
